@@ -451,4 +451,131 @@ def rule_d(ctx):
     return r
 
 
-RULES = [rule_a, rule_b, rule_c, rule_d]
+def rule_e(ctx):
+    r = RuleResult("C05-e", "quoted strings: a hexadecimal escape is followed by a separating space whenever the next byte would otherwise be read as part of it "
+                   "(hex digit, space or tab — CSS Syntax 3 §4.3.7), and exactly the C0 controls other than tab are escaped")
+    prog = ctx.prog()
+    b = prog.one("serializer::Serializer::visit_quoted_string")
+    pushes = []
+    for c in b.calls():
+        if an.tail2(c.callee) == "Vec::push" and len(c.args) == 2:
+            v = an.trace_operand(b, c.args[1])
+            if v.root[0] == "const" and str(v.root[1]) == "32":
+                pushes.append(c)
+    if len(pushes) != 1:
+        raise AnchorMissing("visit_quoted_string: expected one push of b' ' after a hex escape, found %d" % len(pushes))
+    P = pushes[0].bb
+
+    def leads_to(x, seen=None):
+        """x reaches P through goto-only blocks."""
+        seen = seen or set()
+        while x not in seen:
+            seen.add(x)
+            if x == P:
+                return True
+            t = b.term(x)
+            if t["k"] == "goto" and not any(s_["k"] == "assign" and s_["p"]["l"] != 0 and False for s_ in b.stmts(x)):
+                x = t["t"]
+                continue
+            return False
+        return False
+
+    found = set()
+    peeked = None
+    for bb in range(len(b.blocks)):
+        t = b.term(bb)
+        if t["k"] != "switch" or t["dty"] != "bool" or bb in b._const_switch:
+            continue
+        for kind, obj, pol in an.cond_sources(b, Operand(t["d"])):
+            tgt = common.bool_edge(b, bb, pol)
+            if not leads_to(tgt):
+                continue
+            if kind == "call" and (obj.callee or "").endswith("is_ascii_hexdigit"):
+                src = an.trace_operand(b, obj.args[0])
+                if src.root[0] == "call" and an.tail2(src.root[1]) == "Peekable::peek":
+                    found.add("hexdigit")
+                    peeked = src
+            if kind == "binop" and obj[0] == "Eq":
+                for x, y in ((obj[1], obj[2]), (obj[2], obj[1])):
+                    if y.const is not None and x.place is not None:
+                        src = an.trace_operand(b, x)
+                        if src.root[0] == "call" and an.tail2(src.root[1]) == "Peekable::peek":
+                            try:
+                                found.add(int(y.const_value()))
+                            except (TypeError, ValueError):
+                                pass
+    need = {"hexdigit": "a hexadecimal digit", 32: "a space", 9: "a tab"}
+    for k, what in need.items():
+        key = "visit_quoted_string|escape-terminated-before|%s" % k
+        if k in found:
+            r.ok(key)
+        else:
+            r.violate(key, "visit_quoted_string does not insert the separating space after a hex escape when the next byte is %s: the CSS reader then takes that byte "
+                      "as part of the escape and the string changes on re-parse" % what, pushes[0].loc())
+    extra = found - set(need)
+    if extra:
+        r.note("additional terminators (harmless): %s" % sorted(map(str, extra)))
+    # which source bytes take the escaping arm?  Evaluate the decision blocks on the byte `c` for all 256 values.
+    nxt = [c for c in b.calls() if an.tail2(c.callee) == "Iterator::next"]
+    start = None
+    for bb in range(len(b.blocks)):
+        t = b.term(bb)
+        if t["k"] == "switch" and t["dty"] == "u8":
+            src = an.trace_operand(b, Operand(t["d"]))
+            if src.root[0] == "call" and an.tail2(src.root[1]) == "Iterator::next":
+                start, cvar = bb, src
+    if start is None:
+        raise AnchorMissing("visit_quoted_string: no match on the current byte")
+
+    def arm_of(v):
+        x = start
+        for _ in range(64):
+            t = b.term(x)
+            if t["k"] == "goto" and not b.stmts(x):
+                x = t["t"]
+                continue
+            if t["k"] != "switch":
+                return x
+            if t["dty"] == "u8":
+                if an.trace_operand(b, Operand(t["d"])) != cvar:
+                    return x
+                x = next((tb for val, tb in t["ts"] if int(val) == v), t["else"])
+                continue
+            res = None
+            for kind, obj, pol in an.cond_sources(b, Operand(t["d"])):
+                if kind == "binop" and obj[0] in ("Le", "Lt", "Ge", "Gt", "Eq", "Ne"):
+                    vals = []
+                    for o in (obj[1], obj[2]):
+                        if o.const is not None:
+                            vals.append(int(o.const_value()))
+                        elif an.trace_operand(b, o) == cvar:
+                            vals.append(v)
+                        else:
+                            vals.append(None)
+                    if None in vals:
+                        return x
+                    a_, b_ = vals
+                    truth = {"Le": a_ <= b_, "Lt": a_ < b_, "Ge": a_ >= b_, "Gt": a_ > b_, "Eq": a_ == b_, "Ne": a_ != b_}[obj[0]]
+                    res = common.bool_edge(b, x, truth == pol)
+            if res is None:
+                return x
+            x = res
+        return x
+
+    loop_heads = {c.bb for c in nxt}
+    escaped = set()
+    for v in range(256):
+        a0 = arm_of(v)
+        if a0 == P or an.reach_avoiding(b, a0, loop_heads, {P}) is not None:
+            escaped.add(v)
+    must = set(range(0, 9)) | set(range(10, 32))
+    mustnot = {9} | set(range(32, 127)) | set(range(128, 256))
+    if must <= escaped and not (escaped & mustnot):
+        r.ok("visit_quoted_string|escaped-byte-set", escaped="%d bytes: 0x00-0x08, 0x0A-0x1F%s" % (len(escaped), ", 0x7F" if 127 in escaped else ""))
+    else:
+        r.violate("visit_quoted_string|escaped-byte-set", "visit_quoted_string escapes the bytes %s; the C0 controls 0x00-0x08 and 0x0A-0x1F must be escaped (missing: %s) and "
+                  "tab, printable ASCII and bytes >= 0x80 must not (wrongly escaped: %s)" % (sorted(escaped)[:40], sorted(must - escaped), sorted(escaped & mustnot)[:20]), b.loc())
+    return r
+
+
+RULES = [rule_a, rule_b, rule_c, rule_d, rule_e]
